@@ -2,6 +2,8 @@
 From Coq Require Import ZArith List Bool.
 From Grpchan Require Import model.StreamSeq proofs.StreamSeq model.Ctx proofs.C10.
 From Grpchan Require model.InprocStream proofs.StreamInv proofs.StreamOrder.
+From Coq Require Import String.
+From Grpchan Require lib.Str model.Creds model.UnaryMeta proofs.UnaryMeta.
 Import ListNotations.
 Open Scope Z_scope.
 
@@ -44,3 +46,32 @@ Theorem C03_full_stream_frame_order_nonvacuous :
   exists s hq, StreamOrder.hreach true s (StreamOrder.shape (Some [7]) [9] (Some [8]) (Some 5)) hq /\
                InprocStream.cctx s = 0 /\ StreamOrder.datas hq = [9].
 Proof. exact StreamOrder.full_shape_reachable. Qed.
+
+(* ---- unary calls over HTTP: the handler's trailers travel as prefixed HTTP headers (model/UnaryMeta.v) ----
+   Every trailer key of the handler reaches the caller under that very key with all its values, whatever the
+   other response metadata and whether the call failed or not; the key after the prefix is the key, for every
+   name; reading "strip the prefix" as "trim its characters" is refuted on everyday names. *)
+Theorem C03_unary_http_trailers_delivered : forall hmd tmd st name,
+  Grpchan.proofs.UnaryMeta.clean_md hmd -> Grpchan.proofs.UnaryMeta.clean_md tmd ->
+  Forall (fun kv => Grpchan.model.UnaryMeta.is_trailer_key (fst kv) = false) hmd -> name <> String.EmptyString ->
+  Grpchan.model.Creds.md_get name (snd (Grpchan.model.UnaryMeta.client_split (Grpchan.model.UnaryMeta.server_unary_reply hmd tmd st)))
+  = Grpchan.model.Creds.md_get name tmd.
+Proof. exact Grpchan.proofs.UnaryMeta.trailers_delivered. Qed.
+Print Assumptions C03_unary_http_trailers_delivered.
+
+Theorem C03_unary_http_trailer_key : forall name, name <> String.EmptyString ->
+  Grpchan.model.UnaryMeta.is_trailer_key (String.append Grpchan.model.UnaryMeta.trailer_prefix name) = true /\
+  Grpchan.lib.Str.drop (String.length Grpchan.model.UnaryMeta.trailer_prefix) (String.append Grpchan.model.UnaryMeta.trailer_prefix name) = name.
+Proof. exact Grpchan.proofs.UnaryMeta.trailer_key_roundtrip. Qed.
+
+Theorem C03_unary_http_trim_cutset_refuted :
+  Grpchan.model.UnaryMeta.trim_left (String.append Grpchan.model.UnaryMeta.trailer_prefix "trace-id"%string) Grpchan.model.UnaryMeta.trailer_prefix = "d"%string /\
+  Grpchan.model.UnaryMeta.trim_left (String.append Grpchan.model.UnaryMeta.trailer_prefix "request-id"%string) Grpchan.model.UnaryMeta.trailer_prefix = "quest-id"%string /\
+  Grpchan.model.UnaryMeta.trim_left (String.append Grpchan.model.UnaryMeta.trailer_prefix "t"%string) Grpchan.model.UnaryMeta.trailer_prefix = ""%string.
+Proof. exact Grpchan.proofs.UnaryMeta.trim_cutset_refuted. Qed.
+
+Theorem C03_unary_http_hypotheses_met :
+  Grpchan.proofs.UnaryMeta.clean_md [("k", ["v1"; "v2"]); ("x-grpc-status", ["0:OK"])]%string /\
+  Grpchan.proofs.UnaryMeta.clean_md [("trace-id", ["t"]); ("retry-after", ["5"])]%string /\
+  Forall (fun kv => Grpchan.model.UnaryMeta.is_trailer_key (fst kv) = false) [("k", ["v1"; "v2"]); ("x-grpc-status", ["0:OK"])]%string.
+Proof. exact Grpchan.proofs.UnaryMeta.trailers_delivered_applies. Qed.
